@@ -31,5 +31,8 @@ def obligations(tier):
         for t in range(18):
             for d in range(10):
                 obs.append(Ob("C11.derive", F, "derive", 600, part="%d,%d" % (t, d), what=w))
+    for t, d in ((5, 0), (6, 1), (11, 5), (13, 1), (14, 1), (9, 4)) if tier == "quick" else [(t, d) for t in (4, 5, 6, 8, 9, 10, 11, 13, 14, 15, 16, 17) for d in (0, 1, 4, 5)]:
+        obs.append(Ob("C11.derive", F, "derive", 300, part="%d,%d,q,s" % (t, d), what=w + " - after other searches (sub-searches on single statements, a whole-program search) already ran on the same parsed program"))
+    obs.append(Ob("C11.derive_text", F, "derive_text", 200, what="patterns cut from the program TEXT (whole file / a statement's source segment) through the public find_matches on the report: programs with multi-line strings, docstrings, continuation lines, comments, tabs, `;` - found, also when asked twice"))
     obs.append(Ob("C11.derive_reach", F, "derive_reach", 60, expect="refute", what="twin: a _v_ generalisation matches"))
     return obs
